@@ -199,6 +199,60 @@ Arguments permitted {pubkey msg sig} verify {spk} spk_eqb decode keys certs publ
 Arguments cert_grants {pubkey msg sig} verify {spk} spk_eqb decode k c public_key now.
 Arguments certs_wellformed {pubkey msg sig} verify {spk} decode keys certs.
 
+(* ---- the client side around the verifier (storage_client.py) ----
+
+   StorageClientConfig.from_node_config: every entry of the [grid_managers] section of tahoe.cfg is
+   parsed with ed25519.verifying_key_from_string; an entry that does not parse raises (the node does
+   not start).  A configured but unusable entry is an error -- never a shorter, let alone empty, key
+   list (an empty list means "no grid manager: every server is permitted").
+
+   StorageFarmBroker._got_announcement: a (new) announcement for a server replaces the server object,
+   and _make_storage_server builds its verifier from the "grid-manager-certificates" of THAT
+   announcement: the verifier follows the latest announcement of the server. *)
+Section Client.
+  Variables pubkey msg sig : Type.
+  Variable verify : pubkey -> msg -> sig -> bool.
+  Variable spk : Type.
+  Variable spk_eqb : spk -> spk -> bool.
+  Variable decode : msg -> option (cert_json spk).
+
+  (* entries of [grid_managers]: Some k = parses to key k, None = verifying_key_from_string raises *)
+  Fixpoint grid_manager_keys_from_config (entries : list (option pubkey)) : option (list pubkey) :=
+    match entries with
+    | [] => Some []
+    | None :: _ => None
+    | Some k :: r =>
+        match grid_manager_keys_from_config r with
+        | None => None
+        | Some ks => Some (k :: ks)
+        end
+    end.
+
+  (* announcements received so far, oldest first: (server id, its certificate list) *)
+  Definition ann_history : Type := list (N * list (signed_cert msg sig)).
+
+  Fixpoint latest (h : ann_history) (id : N) : option (list (signed_cert msg sig)) :=
+    match h with
+    | [] => None
+    | (i, cs) :: r =>
+        match latest r id with
+        | Some x => Some x
+        | None => if (i =? id)%N then Some cs else None
+        end
+    end.
+
+  (* broker.servers[id].upload_permitted() at `now`; None = no such server *)
+  Definition broker_permitted (keys : list pubkey) (h : ann_history) (id : N) (public_key : spk) (now : Z) : option outcome :=
+    match latest h id with
+    | None => None
+    | Some cs => Some (permitted verify spk_eqb decode keys cs public_key now)
+    end.
+End Client.
+
+Arguments grid_manager_keys_from_config {pubkey} entries.
+Arguments latest {msg sig} h id.
+Arguments broker_permitted {pubkey msg sig} verify {spk} spk_eqb decode keys h id public_key now.
+
 (* ---- executable symbolic instance (Lib/Sig.v): keys, certificate byte strings
    and server key strings are numbered by the driver; the decode table carries
    what an independent JSON/ISO-8601 reading of each byte string gives. *)
@@ -242,4 +296,23 @@ Definition sym_validate_class (tbl : sym_table) (k : N) (c : signed_cert N sym_s
   | VBadSig _ => 0
   | VRaise _ => 2
   | VCert _ j => match j with JNull => 0 | _ => 1 end
+  end.
+
+Definition sym_broker_permitted (tbl : sym_table) (keys : list N) (h : ann_history N sym_sig) (id : N)
+           (public_key : N) (times : list Z) : list (option outcome) :=
+  map (fun now => broker_permitted sym_verify N.eqb (sym_decode tbl) keys h id public_key now) times.
+
+Fixpoint opt_outcomes_eqb (a b : list (option outcome)) : bool :=
+  match a, b with
+  | [], [] => true
+  | None :: a', None :: b' => opt_outcomes_eqb a' b'
+  | Some x :: a', Some y :: b' => outcome_eqb x y && opt_outcomes_eqb a' b'
+  | _, _ => false
+  end.
+
+Definition opt_keys_eqb (a b : option (list N)) : bool :=
+  match a, b with
+  | None, None => true
+  | Some x, Some y => (length x =? length y)%nat && forallb (fun p => (fst p =? snd p)%N) (combine x y)
+  | _, _ => false
   end.
